@@ -1,17 +1,26 @@
 #!/bin/bash
 # usage: tools/seed_prep.sh <suffix> <property id>...   (creates /tmp/wt/<id><suffix> worktrees and briefs)
+# The brief contains only the property text (and, for later rounds, a one-line description of changes that
+# earlier independent reviewers already tried, so that a new reviewer picks a different site) - nothing from /verif's machinery.
 suf=$1; shift
 mkdir -p /tmp/wt
 for id in "$@"; do
   n=$id$suf
   git -C /repo worktree add -q --detach /tmp/wt/$n HEAD && mkdir -p /tmp/wt/out-$n
   python3 - "$id" "$n" <<'PY'
-import json,sys
+import json,sys,os,glob
 pid,n=sys.argv[1],sys.argv[2]
 for l in open('/verif/properties.jsonl'):
     p=json.loads(l)
     if p['id']==pid:
         open('/tmp/wt/out-%s/property.txt'%n,'w').write("ID: %s\nTitle: %s\nStatement: %s\nQuantifier: %s\n"%(p['id'],p['title'],p['statement'],p['quantifier']['text']))
+prev=[]
+for m in sorted(glob.glob('/verif/seeded/%s-*/meta.json'%pid)):
+    try: prev.append(json.load(open(m)).get('change','')[:300])
+    except Exception: pass
+tmpl=open('/verif/tools/seed_prompt.tmpl').read().replace('@ID@',n)
+if prev:
+    tmpl=tmpl.replace('Also write a demonstration:', 'Earlier reviewers already tried the following change(s) for this property; pick a DIFFERENT function/mechanism and a different kind of slip:\n'+'\n'.join('  - '+x for x in prev)+'\n\nAlso write a demonstration:',1)
+open('/tmp/wt/out-%s/prompt.txt'%n,'w').write(tmpl)
 PY
-  sed "s/@ID@/$n/g" /verif/tools/seed_prompt.tmpl > /tmp/wt/out-$n/prompt.txt
 done
